@@ -81,17 +81,15 @@ def mapStep (acc : Option MapAcc) (t : MapTok) : Option MapAcc :=
     | .sz n k, some (n', rows) => if n = n' ∧ k = rows.length then some ⟨a.done ++ [(n', rows)], none⟩ else none
     | _, _ => none
 
+def mapFinish : Option MapAcc → Option MapRows
+  | some ⟨done, none⟩ => some done
+  | _ => none
+
 /-- Every keyword map of the header: `(enum name, [(keyword, constant)])`, checking each `_sz` constant. -/
 def extractMap (t : Txt) : Option MapRows :=
-  match dropPrefix? mapHeader t with
-  | none => none
-  | some r =>
-    match dropSuffix? mapFooter r with
-    | none => none
-    | some body =>
-      match ((linesOf body).filterMap mapTok).foldl mapStep (some ⟨[], none⟩) with
-      | some ⟨done, none⟩ => some done
-      | _ => none
+  (dropPrefix? mapHeader t).bind fun r =>
+  (dropSuffix? mapFooter r).bind fun body =>
+  mapFinish (((linesOf body).filterMap mapTok).foldl mapStep (some ⟨[], none⟩))
 
 /-! ## `mjcf_table.inc` -/
 
@@ -133,87 +131,55 @@ def allSome {α : Type} : List (Option α) → Option (List α)
   | none :: _ => none
   | some x :: r => (allSome r).map (x :: ·)
 
-/-- What the table says: the initialisers of `MJCF[]` in order and the constraint triples. -/
-def tableFacts (items : List TItem) : List (List Txt) × List (Nat × Char × Txt) :=
-  (items.filterMap fun it => match it with
+/-- The initialisers a list of items stands for. -/
+def itemEntries (items : List TItem) : List (List Txt) :=
+  items.filterMap fun it => match it with
     | .row _ parts _ => some parts
     | .opn _ => some [['<']]
     | .cls _ => some [['>']]
-    | .blank => none,
-   conRows 0 items)
+    | .blank => none
+
+/-- What the table says: the initialisers of `MJCF[]` in order and the constraint triples. -/
+def tableFacts (items : List TItem) : List (List Txt) × List (Nat × Char × Txt) :=
+  (itemEntries items, conRows 0 items)
 
 def extractTable (t : Txt) : Option (List (List Txt) × List (Nat × Char × Txt)) :=
-  match dropPrefix? (tableHeader ++ tableOpen) t with
-  | none => none
-  | some r =>
-    match scan .out r with
-    | none => none
-    | some (entries, r1) =>
-      match dropPrefix? tableMidRest r1 with
-      | none => none
-      | some r2 =>
-        match dropSuffix? tableEnd r2 with
-        | none => none
-        | some body =>
-          (allSome (((linesOf body).filter (· ≠ [])).map parseCon)).map fun cons => (entries, cons)
+  (dropPrefix? (tableHeader ++ tableOpen) t).bind fun r =>
+  (scan .out r).bind fun p =>
+  (dropPrefix? ('}' :: tableMidRest) p.2).bind fun r2 =>
+  (dropSuffix? tableEnd r2).bind fun body =>
+  (allSome (((linesOf body).filter (· ≠ [])).map parseCon)).map fun cons => (p.1, cons)
 
 /-! ## `mjcf_default_table.inc` -/
 
+/-- Reads a field up to the character `c` that starts the literal `lit`; returns the field and what follows `lit`. -/
+def field (c : Char) (lit : Txt) (r : Txt) : Option (Txt × Txt) :=
+  (dropPrefix? lit (r.dropWhile (· ≠ c))).map fun rest => (r.takeWhile (· ≠ c), rest)
+
 /-- `  {"attr", (int)offsetof(S, path), kind, len, ndecl, unset, {v, ...}},` -/
 def parseDRow (l : Txt) : Option DRow :=
-  match dropPrefix? (L "  {\"") l with
-  | none => none
-  | some r =>
-    let attr := r.takeWhile (· ≠ '"')
-    match dropPrefix? (L "\", (int)offsetof(") (r.dropWhile (· ≠ '"')) with
-    | none => none
-    | some r =>
-      let spec := r.takeWhile (· ≠ ',')
-      match dropPrefix? (L ", ") (r.dropWhile (· ≠ ',')) with
-      | none => none
-      | some r =>
-        let path := r.takeWhile (· ≠ ')')
-        match dropPrefix? (L "), ") (r.dropWhile (· ≠ ')')) with
-        | none => none
-        | some r =>
-          let kind := r.takeWhile (· ≠ ',')
-          match dropPrefix? (L ", ") (r.dropWhile (· ≠ ',')) with
-          | none => none
-          | some r =>
-            let len := r.takeWhile (· ≠ ',')
-            match dropPrefix? (L ", ") (r.dropWhile (· ≠ ',')) with
-            | none => none
-            | some r =>
-              let ndecl := r.takeWhile (· ≠ ',')
-              match dropPrefix? (L ", ") (r.dropWhile (· ≠ ',')) with
-              | none => none
-              | some r =>
-                let unset := r.takeWhile (· ≠ ',')
-                match dropPrefix? (L ", {") (r.dropWhile (· ≠ ',')) with
-                | none => none
-                | some r =>
-                  let vals := r.takeWhile (· ≠ '}')
-                  if r.dropWhile (· ≠ '}') ≠ L "}}," then none else
-                  match parseNat? kind, parseNat? ndecl with
-                  | some k, some nd =>
-                    let values := if nd = 0 then [] else splitCS vals
-                    if (nd = 0 → vals = ['0']) ∧ values.length = nd ∧ (unset = ['0'] ∨ unset = ['1']) then
-                      some ⟨attr, spec, path, k, len, decide (unset = ['1']), values⟩
-                    else none
-                  | _, _ => none
+  (dropPrefix? (L "  {\"") l).bind fun r =>
+  (field '"' (L "\", (int)offsetof(") r).bind fun (attr, r) =>
+  (field ',' (L ", ") r).bind fun (spec, r) =>
+  (field ')' (L "), ") r).bind fun (path, r) =>
+  (field ',' (L ", ") r).bind fun (kind, r) =>
+  (field ',' (L ", ") r).bind fun (len, r) =>
+  (field ',' (L ", ") r).bind fun (ndecl, r) =>
+  (field ',' (L ", {") r).bind fun (unset, r) =>
+  (field '}' (L "}},") r).bind fun (vals, r) =>
+  (parseNat? kind).bind fun k =>
+  (parseNat? ndecl).bind fun nd =>
+    let values := if nd = 0 then [] else splitCS vals
+    if r = [] ∧ (nd = 0 → vals = ['0']) ∧ values.length = nd ∧ (unset = ['0'] ∨ unset = ['1']) then
+      some ⟨attr, spec, path, k, len, decide (unset = ['1']), values⟩
+    else none
 
 /-- `  {"root", ARR, (int)(sizeof(ARR) / sizeof(ARR[0]))},` -/
 def parseIdx (l : Txt) : Option (Txt × Txt) :=
-  match dropPrefix? (L "  {\"") l with
-  | none => none
-  | some r =>
-    let root := r.takeWhile (· ≠ '"')
-    match dropPrefix? (L "\", ") (r.dropWhile (· ≠ '"')) with
-    | none => none
-    | some r =>
-      let arr := r.takeWhile (· ≠ ',')
-      if r.dropWhile (· ≠ ',') = L ", (int)(sizeof(" ++ arr ++ L ") / sizeof(" ++ arr ++ L "[0]))}," then some (root, arr)
-      else none
+  (dropPrefix? (L "  {\"") l).bind fun r =>
+  (field '"' (L "\", ") r).bind fun (root, r) =>
+  (field ',' (L ", (int)(sizeof(") r).bind fun (arr, r) =>
+    if r = arr ++ L ") / sizeof(" ++ arr ++ L "[0]))}," then some (root, arr) else none
 
 structure DAcc where
   done : List (Txt × List DRow)
@@ -226,26 +192,28 @@ def dTailLines : List Txt :=
   [L "static const int kDefaultTablesN = (int)(sizeof(kDefaultTables) / sizeof(kDefaultTables[0]));",
    L "// clang-format on", []]
 
+/-- One line of the file, by phase: inside an entry array, between arrays, inside the index, after it. -/
 def dStep (acc : Option DAcc) (l : Txt) : Option DAcc :=
-  match acc with
-  | none => none
-  | some a =>
+  acc.bind fun a =>
     if a.closed then (if l ∈ dTailLines then some a else none)
     else match a.idx with
       | some rows =>
-        if l = L "};" then some { a with closed := true }
-        else (parseIdx l).map fun r => { a with idx := some (rows ++ [r]) }
+        match parseIdx l with
+        | some r => some { a with idx := some (rows ++ [r]) }
+        | none => if l = L "};" then some { a with closed := true } else none
       | none =>
         match a.cur with
         | some (arr, rows) =>
-          if l = L "};" then some { a with done := a.done ++ [(arr, rows)], cur := none }
-          else (parseDRow l).map fun r => { a with cur := some (arr, rows ++ [r]) }
+          match parseDRow l with
+          | some r => some { a with cur := some (arr, rows ++ [r]) }
+          | none => if l = L "};" then some { a with done := a.done ++ [(arr, rows)], cur := none } else none
         | none =>
-          if l = [] then some a
-          else if l = dIdxStart then some { a with idx := some [] }
-          else match dropPrefix? (L "static const mjXDefaultEntry ") l with
-            | some r => (dropSuffix? (L "[] = {") r).map fun arr => { a with cur := some (arr, []) }
-            | none => none
+          match dropPrefix? (L "static const mjXDefaultEntry ") l with
+          | some r => (dropSuffix? (L "[] = {") r).map fun arr => { a with cur := some (arr, []) }
+          | none =>
+            if l = [] then some a
+            else if l = dIdxStart then some { a with idx := some [] }
+            else none
 
 /-- What the default table says: per emitted array, in file order: `(array name, struct name of its index row, rows)`. -/
 abbrev DefaultFacts := List (Txt × Txt × List DRow)
@@ -259,12 +227,12 @@ def zipIdx : List (Txt × List DRow) → List (Txt × Txt) → Option DefaultFac
     if arr = arr' then (zipIdx ds is).map ((arr, root, rows) :: ·) else none
   | _, _ => none
 
+def dFinish : Option DAcc → Option DefaultFacts
+  | some ⟨done, none, some idx, true⟩ => zipIdx done idx
+  | _ => none
+
 def extractDefault (t : Txt) : Option DefaultFacts :=
-  match dropPrefix? (defaultHeader ++ ['\n']) t with
-  | none => none
-  | some body =>
-    match (linesOf body).foldl dStep (some ⟨[], none, none, false⟩) with
-    | some ⟨done, none, some idx, true⟩ => zipIdx done idx
-    | _ => none
+  (dropPrefix? (defaultHeader ++ ['\n']) t).bind fun body =>
+  dFinish ((linesOf body).foldl dStep (some ⟨[], none, none, false⟩))
 
 end MjProof.SchemaGen
